@@ -5,6 +5,7 @@ import "context"
 func init() {
 	vpHarnesses["VP_C13_roundtrip"] = VP_C13_roundtrip
 	vpHarnesses["VP_C13_open"] = VP_C13_open
+	vpHarnesses["VP_C13_neighbours"] = VP_C13_neighbours
 }
 
 const vpHexLower = "0123456789abcdef"
@@ -168,4 +169,34 @@ func VP_C13_open() {
 		vpAssert("C13/open/line-break-is-error", err != nil)
 	}
 	vpReach("C13/open/done")
+}
+
+// C13/neighbours: a literal keeps its text when other literals with escapes stand
+// before and after it in the same formula: [ 'a\tb', LIT, "c\\d\x41" ].
+func VP_C13_neighbours() {
+	L := vpParam("L")
+	n := vpChoice("n", L+1)
+	t := vpBytes("t", n)
+	q := vpQuoteChoice()
+	lit := vpEscape(t, q)
+	src := append(append([]byte("['a\\tb', "), lit...), []byte(", \"c\\\\d\\x41\", 'plain']")...)
+	code, err := ParseSourceCode(src)
+	vpObserve("src", src, err != nil)
+	vpAssert("C13/neighbours/accepted", err == nil)
+	if err != nil {
+		return
+	}
+	v, rerr := NewRunner().Resolve(context.Background(), code.Expression)
+	arr, ok := v.([]interface{})
+	vpAssert("C13/neighbours/evaluates", rerr == nil && ok && len(arr) == 4)
+	if rerr != nil || !ok || len(arr) != 4 {
+		return
+	}
+	a, _ := arr[0].(string)
+	m, _ := arr[1].(string)
+	c, _ := arr[2].(string)
+	p, _ := arr[3].(string)
+	vpAssert("C13/neighbours/middle-literal-equal", m == string(t))
+	vpAssert("C13/neighbours/other-literals-keep-their-text", a == "a\tb" && c == "c\\dA" && p == "plain")
+	vpReach("C13/neighbours/done")
 }
